@@ -100,7 +100,7 @@ def _case(draw):
             r["effect"] = draw(st.sampled_from(["", "missense", "stop"]))
     rows = list(draw(st.permutations(rows)))
     bad_cn = draw(st.sampled_from([False, False, False, False, True]))
-    cluster_ids = draw(st.lists(st.integers(0, 3), min_size=n_m, max_size=n_m)) if draw(st.integers(0, 2)) == 0 else None
+    cluster_ids = draw(st.lists(st.sampled_from([2, 10, 0, 11, 1, 3, 100, 9]), min_size=n_m, max_size=n_m)) if draw(st.integers(0, 2)) == 0 else None
     return dict(rows=rows, sep=sep, bad_cn=bad_cn, bad_pick=draw(st.integers(0, 1000)), cluster_ids=cluster_ids, mut_ids=mut_ids, excluded=excluded)
 
 
